@@ -34,6 +34,7 @@ func runC16(c *core.Ctx, r *core.Reporter) {
 	c16coerce(c, r)
 	c16total(c, r)
 	c16samekey(c, r)
+	c16widen(c, r)
 }
 
 // hierarchyLiterals returns the symbol lists a Hierarchy() method can return.
